@@ -19,14 +19,15 @@ CONSTANTS Cfgs       \* set of [E, NB, NV, NT] records (NV = 0: no validation lo
 
 VARIABLES cfg, phase, ep, bi, vb, mtrain, gmode, ngdepth, steps, fwd, zeroed, bwdone, pver, sver, hlen,
           amb,      \* the gradient mode of the caller's environment (the caller may run test() inside its own no_grad block)
-          saved     \* the mode found when the loop's no_grad block was entered
-vars == <<cfg, phase, ep, bi, vb, mtrain, gmode, ngdepth, steps, fwd, zeroed, bwdone, pver, sver, hlen, amb, saved>>
+          saved,    \* the mode found when the loop's no_grad block was entered
+          nfit      \* number of earlier fit() calls on this Trainer (bounded: a second fit starts a fresh history)
+vars == <<cfg, phase, ep, bi, vb, mtrain, gmode, ngdepth, steps, fwd, zeroed, bwdone, pver, sver, hlen, amb, saved, nfit>>
 
 Init ==
   /\ cfg \in Cfgs
   /\ phase = "idle" /\ ep = 0 /\ bi = 0 /\ vb = 0
   /\ mtrain \in BOOLEAN          \* whatever mode the model was left in
-  /\ gmode = TRUE /\ ngdepth = 0 /\ amb = TRUE /\ saved = TRUE
+  /\ gmode = TRUE /\ ngdepth = 0 /\ amb = TRUE /\ saved = TRUE /\ nfit = 0
   /\ steps = 0 /\ fwd = FALSE /\ zeroed = FALSE /\ bwdone = FALSE
   /\ pver = 0 /\ sver = 0 /\ hlen = 0
 
@@ -34,103 +35,110 @@ Init ==
 AmbientToggle ==
   /\ phase \in {"idle", "finished", "tested"} /\ ngdepth = 0
   /\ amb' = ~amb /\ gmode' = ~gmode
-  /\ UNCHANGED <<cfg, phase, ep, bi, vb, mtrain, ngdepth, steps, fwd, zeroed, bwdone, pver, sver, hlen, saved>>
+  /\ UNCHANGED <<cfg, phase, ep, bi, vb, mtrain, ngdepth, steps, fwd, zeroed, bwdone, pver, sver, hlen, saved, nfit>>
 
 \* fit() starts an epoch: phase idle/epoch-boundary -> train (training needs gradient tracking: fit() inside a
 \* caller's no_grad block is outside the specification)
 EpochBegin ==
   /\ phase \in {"idle", "between"} /\ ep < cfg.E /\ gmode
   /\ phase' = "train" /\ bi' = 0 /\ vb' = 0
-  /\ UNCHANGED <<cfg, ep, mtrain, gmode, ngdepth, steps, fwd, zeroed, bwdone, pver, sver, hlen, amb, saved>>
+  /\ UNCHANGED <<cfg, ep, mtrain, gmode, ngdepth, steps, fwd, zeroed, bwdone, pver, sver, hlen, amb, saved, nfit>>
 
 ModelTrain ==       \* model.train(): allowed whenever the loop is in its training part and no batch is half-way
   /\ phase = "train" /\ ~bwdone
   /\ mtrain' = TRUE
-  /\ UNCHANGED <<cfg, phase, ep, bi, vb, gmode, ngdepth, steps, fwd, zeroed, bwdone, pver, sver, hlen, amb, saved>>
+  /\ UNCHANGED <<cfg, phase, ep, bi, vb, gmode, ngdepth, steps, fwd, zeroed, bwdone, pver, sver, hlen, amb, saved, nfit>>
 
 \* a user callback (on_train_epoch) runs at the start of the epoch and may leave the model in any mode,
 \* e.g. after evaluating it; the loop must re-assert training mode before the first batch
 CallbackEval ==
   /\ phase = "train" /\ bi = 0 /\ ~fwd /\ ~zeroed /\ ~bwdone
   /\ mtrain' = FALSE
-  /\ UNCHANGED <<cfg, phase, ep, bi, vb, gmode, ngdepth, steps, fwd, zeroed, bwdone, pver, sver, hlen, amb, saved>>
+  /\ UNCHANGED <<cfg, phase, ep, bi, vb, gmode, ngdepth, steps, fwd, zeroed, bwdone, pver, sver, hlen, amb, saved, nfit>>
 
 Forward(statsMove) ==
   /\ phase = "train" /\ bi < cfg.NB /\ ~fwd /\ ~bwdone
   /\ mtrain /\ gmode                       \* computed with the model in training mode, gradients tracked
   /\ fwd' = TRUE
   /\ sver' = IF statsMove THEN sver + 1 ELSE sver
-  /\ UNCHANGED <<cfg, phase, ep, bi, vb, mtrain, gmode, ngdepth, steps, zeroed, bwdone, pver, hlen, amb, saved>>
+  /\ UNCHANGED <<cfg, phase, ep, bi, vb, mtrain, gmode, ngdepth, steps, zeroed, bwdone, pver, hlen, amb, saved, nfit>>
 
 ZeroGrad ==
   /\ phase = "train" /\ bi < cfg.NB /\ ~zeroed /\ ~bwdone
   /\ zeroed' = TRUE
-  /\ UNCHANGED <<cfg, phase, ep, bi, vb, mtrain, gmode, ngdepth, steps, fwd, bwdone, pver, sver, hlen, amb, saved>>
+  /\ UNCHANGED <<cfg, phase, ep, bi, vb, mtrain, gmode, ngdepth, steps, fwd, bwdone, pver, sver, hlen, amb, saved, nfit>>
 
 Backward ==
   /\ phase = "train" /\ fwd /\ zeroed /\ ~bwdone /\ gmode
   /\ bwdone' = TRUE
-  /\ UNCHANGED <<cfg, phase, ep, bi, vb, mtrain, gmode, ngdepth, steps, fwd, zeroed, pver, sver, hlen, amb, saved>>
+  /\ UNCHANGED <<cfg, phase, ep, bi, vb, mtrain, gmode, ngdepth, steps, fwd, zeroed, pver, sver, hlen, amb, saved, nfit>>
 
 Step(paramsMove) ==
   /\ phase = "train" /\ bwdone /\ mtrain /\ gmode
   /\ steps' = steps + 1 /\ bi' = bi + 1
   /\ pver' = IF paramsMove THEN pver + 1 ELSE pver
   /\ fwd' = FALSE /\ zeroed' = FALSE /\ bwdone' = FALSE
-  /\ UNCHANGED <<cfg, phase, ep, vb, mtrain, gmode, ngdepth, sver, hlen, amb, saved>>
+  /\ UNCHANGED <<cfg, phase, ep, vb, mtrain, gmode, ngdepth, sver, hlen, amb, saved, nfit>>
 
 \* all batches of the epoch done: either validate or close the epoch
 ValBegin ==
   /\ phase = "train" /\ bi = cfg.NB /\ cfg.NV > 0 /\ ~fwd /\ ~zeroed
   /\ phase' = "val"
-  /\ UNCHANGED <<cfg, ep, bi, vb, mtrain, gmode, ngdepth, steps, fwd, zeroed, bwdone, pver, sver, hlen, amb, saved>>
+  /\ UNCHANGED <<cfg, ep, bi, vb, mtrain, gmode, ngdepth, steps, fwd, zeroed, bwdone, pver, sver, hlen, amb, saved, nfit>>
 
 ModelEval ==
   /\ phase \in {"val", "test"}
   /\ mtrain' = FALSE
-  /\ UNCHANGED <<cfg, phase, ep, bi, vb, gmode, ngdepth, steps, fwd, zeroed, bwdone, pver, sver, hlen, amb, saved>>
+  /\ UNCHANGED <<cfg, phase, ep, bi, vb, gmode, ngdepth, steps, fwd, zeroed, bwdone, pver, sver, hlen, amb, saved, nfit>>
 
 NoGradEnter ==
   /\ phase \in {"val", "test"} /\ ngdepth = 0 /\ vb = 0        \* entered once, before the first forward
   /\ ngdepth' = 1 /\ gmode' = FALSE /\ saved' = gmode
-  /\ UNCHANGED <<cfg, phase, ep, bi, vb, mtrain, steps, fwd, zeroed, bwdone, pver, sver, hlen, amb>>
+  /\ UNCHANGED <<cfg, phase, ep, bi, vb, mtrain, steps, fwd, zeroed, bwdone, pver, sver, hlen, amb, nfit>>
 
 ValForward ==
   /\ phase \in {"val", "test"} /\ (phase = "val" => vb < cfg.NV) /\ (phase = "test" => vb < cfg.NT)
   /\ ~mtrain /\ ~gmode                      \* eval mode, gradient tracking disabled
   /\ vb' = vb + 1
-  /\ UNCHANGED <<cfg, phase, ep, bi, mtrain, gmode, ngdepth, steps, fwd, zeroed, bwdone, pver, sver, hlen, amb, saved>>
+  /\ UNCHANGED <<cfg, phase, ep, bi, mtrain, gmode, ngdepth, steps, fwd, zeroed, bwdone, pver, sver, hlen, amb, saved, nfit>>
 
 NoGradExit ==
   /\ phase \in {"val", "test"} /\ ngdepth = 1 /\ (phase = "val" => vb = cfg.NV) /\ (phase = "test" => vb = cfg.NT)
   /\ ngdepth' = 0 /\ gmode' = saved         \* the mode found on entry - not the mode at any other time
-  /\ UNCHANGED <<cfg, phase, ep, bi, vb, mtrain, steps, fwd, zeroed, bwdone, pver, sver, hlen, amb, saved>>
+  /\ UNCHANGED <<cfg, phase, ep, bi, vb, mtrain, steps, fwd, zeroed, bwdone, pver, sver, hlen, amb, saved, nfit>>
 
 EpochEnd ==
   /\ \/ phase = "train" /\ bi = cfg.NB /\ cfg.NV = 0 /\ ~fwd /\ ~zeroed
      \/ phase = "val" /\ vb = cfg.NV /\ ngdepth = 0
   /\ ep' = ep + 1 /\ hlen' = hlen + 1       \* exactly one history entry per key and epoch
   /\ phase' = IF ep + 1 = cfg.E THEN "done" ELSE "between"
-  /\ UNCHANGED <<cfg, bi, vb, mtrain, gmode, ngdepth, steps, fwd, zeroed, bwdone, pver, sver, amb, saved>>
+  /\ UNCHANGED <<cfg, bi, vb, mtrain, gmode, ngdepth, steps, fwd, zeroed, bwdone, pver, sver, amb, saved, nfit>>
 
 \* fit() returns: every epoch has been run
 FitEnd ==
   /\ phase = "done"
   /\ phase' = "finished"
-  /\ UNCHANGED <<cfg, ep, bi, vb, mtrain, gmode, ngdepth, steps, fwd, zeroed, bwdone, pver, sver, hlen, amb, saved>>
+  /\ UNCHANGED <<cfg, ep, bi, vb, mtrain, gmode, ngdepth, steps, fwd, zeroed, bwdone, pver, sver, hlen, amb, saved, nfit>>
+
+\* fit() is called again on the same Trainer: epochs, step count and history start afresh (the history returned by a
+\* fit has one entry per epoch of THAT fit)
+FitAgain ==
+  /\ phase = "finished" /\ nfit = 0 /\ gmode
+  /\ phase' = "idle" /\ ep' = 0 /\ hlen' = 0 /\ steps' = 0 /\ bi' = 0 /\ vb' = 0 /\ nfit' = 1
+  /\ UNCHANGED <<cfg, mtrain, gmode, ngdepth, fwd, zeroed, bwdone, pver, sver, amb, saved>>
 
 \* Trainer.test(): model.eval(), no_grad, forwards, exit
 TestBegin ==
   /\ phase \in {"idle", "finished"}
   /\ phase' = "test" /\ vb' = 0
-  /\ UNCHANGED <<cfg, ep, bi, mtrain, gmode, ngdepth, steps, fwd, zeroed, bwdone, pver, sver, hlen, amb, saved>>
+  /\ UNCHANGED <<cfg, ep, bi, mtrain, gmode, ngdepth, steps, fwd, zeroed, bwdone, pver, sver, hlen, amb, saved, nfit>>
 TestEnd ==
   /\ phase = "test" /\ ngdepth = 0 /\ ~mtrain /\ vb = cfg.NT
   /\ phase' = "tested"
-  /\ UNCHANGED <<cfg, ep, bi, vb, mtrain, gmode, ngdepth, steps, fwd, zeroed, bwdone, pver, sver, hlen, amb, saved>>
+  /\ UNCHANGED <<cfg, ep, bi, vb, mtrain, gmode, ngdepth, steps, fwd, zeroed, bwdone, pver, sver, hlen, amb, saved, nfit>>
 
 Next ==
-  \/ AmbientToggle
+  \/ AmbientToggle \/ FitAgain
   \/ EpochBegin \/ ModelTrain \/ CallbackEval \/ ZeroGrad \/ Backward \/ ValBegin \/ ModelEval \/ NoGradEnter \/ ValForward \/ NoGradExit
   \/ EpochEnd \/ FitEnd \/ TestBegin \/ TestEnd
   \/ \E b \in BOOLEAN : Forward(b) \/ Step(b)
